@@ -37,6 +37,8 @@ def run(rep, tier):
     rep.rule("R11.3", "every shipped option description: links resolve, choices parse with the validator's own type heads, every non-reserved "
                       "default satisfies its own choices, list sections have pairwise distinct child tags")
     rep.rule("R11.4", "PrintNodeXML: node values and attribute values reach the stream only through an XML-escaping function")
+    rep.rule("R11.9", "typed access to numbers: the arithmetic convert_impl converts the whole string (boost::lexical_cast through tools::lexical_cast); no prefix parser "
+                      "(std::stod/stoi/.., strtod/strtol, atof/atoi, sscanf) whose end position is not checked is called on the value - such a parser accepts '0,5', '1.5nm', '3.0.1'")
     rep.rule("R11.5", "typed access: bool accepts exactly true/false (case-insensitive), 1, 0; everything else throws")
     rep.rule("R11.6", "list merge: the default element copied for additional user elements is read before any element of that tag is "
                       "merged with user input (user values of one list element never leak into the next)")
@@ -357,6 +359,34 @@ def run(rep, tier):
             table[str(v)] = sorted(lits)
         ok = table.get("True") == ["1", "true"] and table.get("False") == ["0", "false"] and len(fo.throws) == 1
         rep.check(ok, "R11.5", "bool-literals", "true/1 -> true, false/0 -> false, else throw", "convert_impl<bool> accepts %s (throws: %d)" % (table, len(fo.throws)), cb.loc(), sample=True)
+    # ---------------------------------------------------------------- R11.9
+    PREFIX = re.compile(r"^(std::)?(sto(d|f|ld|i|l|ll|ul|ull)|strto(d|f|ld|l|ll|ul|ull)|ato(f|i|l|ll)|sscanf)$")
+    conv = [f_ for f_ in F.funcs if (f_.qname == T + "internal::convert_impl" and "type<bool>" not in f_.j["sig"]) or f_.qname == T + "lexical_cast"]
+    arith = [f_ for f_ in conv if f_.qname.endswith("convert_impl") and ("is_arithmetic" in f_.j["sig"] or re.search(r"type<(double|long|int|float|unsigned long)>", f_.j["sig"]))]
+    rep.floor("R11.9", len(conv), 2, "conversion helpers (convert_impl overloads, tools::lexical_cast)")
+    whole = 0
+    for f_ in conv:
+        rep.analysed(f_)
+        bad = []
+        for n in f_.walk():
+            if n.get("k") in ("call", "mcall", "unresolved_call", "ucall"):
+                cal = (n.get("callee") or show(n.get("callee_expr") or {}) or "")
+                base = cal.split("(")[0].strip()
+                if PREFIX.match(base) or PREFIX.match(base.split("::")[-1]):
+                    args_ = n.get("args") or []
+                    checked = len(args_) >= 2 and show(args_[1]) not in ("nullptr", "0", "NULL", "")
+                    if not checked:
+                        bad.append("%s(%s)" % (base, ", ".join(show(a_) for a_ in args_)))
+            txt = show(n) if n.get("k") in ("call", "unresolved_call", "ucall", "mcall") else ""
+            if "lexical_cast" in txt:
+                whole += 1
+        key = "whole-string|%s|%s" % (f_.qname.split("::")[-1], f_.j["sig"][:60])
+        rep.check(not bad, "R11.9", key, "no unchecked prefix parser",
+                  "%s converts with %s, which parses only the leading numeric prefix and ignores the rest: values such as '0,5', '1.5nm', '3.0.1' or '2 3' are accepted "
+                  "(as<T>, float/int choices) instead of being rejected" % (f_.qname, ", ".join(bad)), f_.loc(), sample=bool(bad) or f_ is conv[0])
+    if not whole:
+        rep.broken("R11.9", "no call of lexical_cast found in the conversion helpers: unrecognised conversion")
+
     rep.assumptions += ["expat decodes the standard entities on load", "the full merge semantics on arbitrary user trees (multiplicities beyond the pristine-copy rule) are not decided"]
 
 
